@@ -41,12 +41,16 @@ PROPS = {
  "C01": dict(
    corr=[("expr", "compile", 4000, 40000), ("prog", "compile", 2000, 20000), ("prog-params", "compile", 2000, 20000), ("lets", "compile", 1500, 15000),
          ("signs", "compile", 0, 0), ("joinconds", "compile", 0, 0), ("joins", "compile", 1000, 10000)],
-   oracle=[("expr", "oracle-C12", 1500, 15000)],
-   corpus=["compile.txt"], tables=["Gen/Tables.v: op_prec, binop_sql, known_funcs, writer_arity, writer_template, builtin_idents"]),
+   oracle=[("expr", "reread", 4000, 40000), ("prog", "reread", 2000, 20000), ("prog-params", "reread", 2000, 20000), ("lets", "reread", 1500, 15000),
+           ("signs", "reread", 0, 0), ("joinconds", "reread", 0, 0), ("expr", "oracle-C12", 1500, 15000)],
+   oracle_for_stage={"compile": ["reread"]},
+   corpus=["compile.txt", "reserved.txt"], tables=["Gen/Tables.v: op_prec, binop_sql, known_funcs, writer_arity, writer_template, builtin_idents"]),
  "C02": dict(
    corr=[("pipes-exh-3", "compile", 0, 0), ("pipes", "compile", 3000, 30000)],
    thorough_corr=[("pipes-exh-4", "compile", 0, 0)],
-   oracle=[("pipes", "oracle-C13", 1500, 15000)],
+   oracle=[("pipes-exh-3", "reread", 0, 0), ("pipes", "reread", 3000, 30000), ("pipes", "oracle-C13", 1500, 15000)],
+   thorough_oracle=[("pipes-exh-4", "reread", 0, 0)],
+   oracle_for_stage={"compile": ["reread"]},
    corpus=["compile.txt"], tables=["Gen/AstTables.v: can_attach_sort, split_cond_sort, split_cond_take, split_cond_top"],
    trusted_extra=["standard-library axiom FunctionalExtensionality.functional_extensionality_dep: used only by C02_pipeline, to identify the SQL and PQL expression evaluators once C01_meaning has shown them pointwise equal (C02_pipeline_generic is axiom-free)",
                   "specifications that define meaning: coq/Spec/Sem.v (values, SQL expression semantics), coq/Spec/PqlSem.v (PQL expression semantics), coq/Spec/PipeSem.v (operators, pipeline interpreter, SELECT = source; operator; ORDER BY; LIMIT; later subqueries see earlier ones by name, order preserved)"],
@@ -54,11 +58,15 @@ PROPS = {
                 "the theorem is stated on the structured subqueries of the model; that the emitted text denotes them is tied by byte-exact correspondence of the rendering"]),
  "C05": dict(
    corr=[("prog", "compile", 3000, 30000), ("prog-mut", "compile", 3000, 30000), ("pipes", "compile", 1500, 15000), ("joins", "compile", 1500, 15000)],
-   oracle=[("prog-mut", "oracle-C13", 1500, 15000)],
-   corpus=["compile.txt"], tables=["Gen/Tables.v: op_prec, binop_sql, join_types"]),
+   oracle=[("prog", "reread", 3000, 30000), ("prog-mut", "reread", 3000, 30000), ("pipes", "reread", 1500, 15000), ("joins", "reread", 1500, 15000),
+           ("prog-mut", "oracle-C13", 1500, 15000)],
+   oracle_for_stage={"compile": ["reread"]},
+   corpus=["compile.txt", "reserved.txt"], tables=["Gen/Tables.v: op_prec, binop_sql, join_types"]),
  "C06": dict(
    corr=[("lets", "compile", 4000, 40000), ("prog-params", "compile", 3000, 30000), ("signs", "compile", 0, 0), ("joinconds", "compile", 0, 0)],
-   oracle=[("lets", "oracle-C13", 2000, 20000), ("lets", "oracle-C14", 500, 5000)],
+   oracle=[("lets", "reread", 4000, 40000), ("prog-params", "reread", 3000, 30000), ("signs", "reread", 0, 0), ("joinconds", "reread", 0, 0),
+           ("lets", "oracle-C13", 2000, 20000), ("lets", "oracle-C14", 500, 5000)],
+   oracle_for_stage={"compile": ["reread"]},
    corpus=["compile.txt"], tables=["Gen/Tables.v: builtin_idents"]),
  "C07": dict(
    corr=[("prog", "parse", 4000, 40000), ("expr", "parse", 3000, 30000), ("prog-flat", "parse", 2000, 20000), ("pipes", "parse", 1500, 15000), ("joins", "parse", 1500, 15000)],
@@ -109,11 +117,14 @@ PROPS = {
                 "bufio.Scanner's line splitting and 64 KiB limit are modelled in events_of (coq/Model/Show.v) and tied by correspondence"]),
  "C04": dict(
    corr=[("prog-hostile", "compile", 6000, 60000), ("prog-hostile", "scan", 2000, 20000), ("lit", "scan", 2000, 20000), ("prog-hostile", "parse", 2000, 20000)],
-   oracle=[("prog-hostile", "oracle-C09", 2000, 20000)],
+   oracle=[("prog-hostile", "reread", 6000, 60000), ("prog-hostile", "oracle-C09", 2000, 20000)],
+   oracle_for_stage={"compile": ["reread"]},
    corpus=["compile.txt"], tables=[]),
  "C03": dict(
    corr=[("joins", "compile", 5000, 50000), ("joinconds", "compile", 0, 0), ("prog", "compile", 2000, 20000), ("joins", "parse", 1500, 15000)],
-   oracle=[("joins", "oracle-C13", 2000, 20000), ("joins", "oracle-C12", 1000, 10000)],
+   oracle=[("joins", "reread", 5000, 50000), ("joinconds", "reread", 0, 0), ("prog", "reread", 2000, 20000),
+           ("joins", "oracle-C13", 2000, 20000), ("joins", "oracle-C12", 1000, 10000)],
+   oracle_for_stage={"compile": ["reread"]},
    corpus=["compile.txt"], tables=["Gen/Tables.v: join_types, builtin_idents", "Gen/AstTables.v: can_attach_sort, split_cond_*"],
    trusted_extra=["standard-library axiom FunctionalExtensionality.functional_extensionality_dep: used only by C03_joins, to identify the SQL and PQL expression evaluators (C03_joins_generic is axiom-free)",
                   "specifications that define meaning: coq/Spec/PipeSem.v (join_rows, run_pipeline, eval_statement), coq/Spec/Sem.v, coq/Spec/PqlSem.v"],
